@@ -19,5 +19,5 @@ PY
 [ $? -eq 9 ] && exit 9
 cd /verif
 if [ -n "${5:-}" ]; then SH="--shards $5"; else SH="--no-evidence"; fi
-VERIF_REPO=$M ./check $4 --tier quick $SH 2>&1 | grep -E "^VIOLATION|bucket=|^C[0-9]+ tier|HARNESS" | head -8
+VERIF_REPO=$M ./check $4 --tier ${TIER:-quick} $SH 2>&1 | grep -E "^VIOLATION|bucket=|^C[0-9]+ tier|HARNESS" | head -8
 cp /repo/xrspatial/$1 $F
